@@ -19,6 +19,11 @@ def run(tier, seed, verdict):
     for (pid, spec, tok, lv) in progs:
         fn = gen_stream.scenarios_for if "stream" in spec else expr_check.scenarios_for
         scen[pid] = fn(spec, tok, rng, budget)
+        for sc in scen[pid]:
+            # this differential is about results, not lifetimes: the receiver neither destroys the operation nor frees its
+            # stop source inside the completion here (those regimes are C02/C04's and, where the library has a recorded
+            # use-after-free, would crash the unsanitized configurations without a report to key on)
+            sc["dic"] = sc["fsc"] = sc["poison"] = 0
     logs = {}
     traits = {}
     stats = {"evaluations": 0, "distinct": set(), "compared": 0}
@@ -26,13 +31,15 @@ def run(tier, seed, verdict):
     for variant in variants:
         run_ = expr_check.ExprRun(seed, len(progs), 3, 3, 5, variant, budget, name="cfgdiff", programs=progs)
         run_.build()
+        alive = set(p[0] for p in run_.progs)   # programs this configuration could compile (grammar corners are dropped)
+        stats.setdefault("dropped", {})[variant] = sorted(set(p[0] for p in progs) - alive)
 
         def one(job):
             pid, spec, tok, lv = job
             lines = [expr_check.scn_line(pid, i + 1, sc) for i, sc in enumerate(scen[pid])]
             return job, run_.run_batch(lines)
 
-        for job, (results, crashes) in core.parallel(one, progs):
+        for job, (results, crashes) in core.parallel(one, [p for p in progs if p[0] in alive]):
             pid, spec, tok, lv = job
             for (sid, err, rc, timed_out) in crashes:
                 ss = core.san_summary(err)
@@ -96,6 +103,7 @@ def run(tier, seed, verdict):
         "samples": samples or ["(none)"],
         "configurations": variants,
         "pairs_compared": stats["compared"],
+        "programs_not_compilable_per_configuration": stats.get("dropped", {}),
         "exhaustive": False,
     }
     assume = list(ASSUME) + [
